@@ -44,6 +44,7 @@ func TestVerifC02Pinned(t *testing.T) {
 			rows = append(rows, row{fmt.Sprintf("xr secret pipeline=%v %s", pipeline, typ), sc.build, 2})
 		}
 	}
+	rows = append(rows, row{"function composer GC driven directly", fnGCCase{N: 2, Gone: 1}.build, 2})
 	for _, ssa := range []bool{false, true} {
 		for _, v := range []string{"bind", "delete", "dest", "dest-opaque", "source-foreign", "source-uncontrolled"} {
 			cc := claimCase{SSA: ssa, Variant: v, OtherNS: "ns2", Extra: true, Seed: 42}
